@@ -1,12 +1,14 @@
 use crate::{Ctx, Report};
 pub mod c10;
 pub mod c19;
+pub mod c20;
 pub mod probe;
 
 pub fn run(name: &str, ctx: &Ctx, rep: &mut Report) -> bool {
   match name {
     "c10" => c10::run(ctx, rep),
     "c19" => c19::run(ctx, rep),
+    "c20" => c20::run(ctx, rep),
     "probe" => probe::run(ctx, rep),
     _ => return false,
   }
